@@ -370,6 +370,13 @@ where
                     let n = st.excluded_known.entry(format!("SURVEY {}", f.signature)).or_insert(0);
                     *n += 1;
                     if *n == 1 {
+                      let v = Violation {
+                        signature: f.signature.clone(),
+                        message: f.message.clone(),
+                        case: serde_json::to_value(&case).unwrap_or(Value::Null),
+                      };
+                      let path = write_replay("SURVEY", "survey", &v);
+                      st.notes.insert(format!("SURVEY-REPLAY {} -> {}", f.signature, path.display()));
                       st.notes.insert(format!("SURVEY {} :: {}", f.signature, f.message.chars().take(600).collect::<String>()));
                     }
                     Ok(Some(case))
